@@ -1,3 +1,13 @@
+mod c06;
+mod c13;
+mod net;
+mod world;
+
+use vcore::SubCheck;
+
 fn main() {
-    std::process::exit(vcore::driver("vp-e2e", vec![]));
+    let mut checks: Vec<Box<dyn SubCheck>> = vec![];
+    checks.extend(c06::checks());
+    checks.extend(c13::checks());
+    std::process::exit(vcore::driver("vp-e2e", checks));
 }
